@@ -231,7 +231,13 @@ def search_failing_input(ctx, broken):
     """A C10 obligation no longer checks (typically: the rule table regenerated from
     expasy_rules.py differs from the ExPASy reference).  Search for a string on which the
     implementation's cleavage sites differ from the reference rule's sites."""
-    import random
+    import random, sys
+    from harness.lib import py2coq_search
+    if py2coq_search.is_code_obligation(broken):
+        # code_enzymatic_cleave_is_model: the loops translated from the source differ from Digest.cleave_loop
+        r = py2coq_search.first_disagreement(sys.modules[__name__], ctx, broken, kinds=('cleave',), budget=600)
+        if r:
+            return r
     rng = random.Random(ctx.seed)
     names = R.rule_names()
     cases = []
